@@ -84,3 +84,56 @@ Fixpoint cross_chunks (n fuel : nat) (steps : list (N * N * N)) (l1 total off sp
         end
   end.
 Definition cross_small (n fuel : nat) := cross_chunks n fuel eratSmallSteps.
+
+(** ---- the segment loop of the kernel (Erat::sieveSegment driven by PrimeGenerator / CountPrintPrimes ::sieveSegment):
+      sqrtHigh = isqrt(segmentHigh); for (; prime <= sqrtHigh; prime = sievingPrimes.next()) addSievingPrime(prime);
+      crossOff();
+    with EratSmall as the only cross-off algorithm and without the pre-sieve (an all-ones sieve array).
+    [pending]: the sieving primes not yet added, ascending (what SievingPrimes::next() will deliver). *)
+From PS Require Import Model.Wheel Model.EratGeom.
+Record kseg := { k_low : N; k_size : N; k_high : N }.
+
+Fixpoint span_sq (high : N) (ps : list N) : list N * list N :=
+  match ps with
+  | [] => ([], [])
+  | p :: r => if p * p <=? high then let (a, b) := span_sq high r in (p :: a, b) else ([], ps)
+  end.
+
+Definition add_primes (stop low : N) (ps : list N) : list (N * N * N) :=
+  flat_map (fun p => match addSievingPrime30 stop p low with Some (mi, wi) => [(p / 30, mi, wi)] | None => [] end) ps.
+
+Fixpoint sieve_loop (fuel : nat) (steps : list (N * N * N)) (stop : N) (segs : list kseg) (pending : list N)
+    (sts : list (N * N * N)) : option (list (kseg * list (N * N))) :=
+  match segs with
+  | [] => Some []
+  | sg :: rest =>
+      let (now, later) := span_sq (k_high sg) pending in
+      let sts1 := sts ++ add_primes stop (k_low sg) now in
+      match cross_all fuel steps (k_size sg) sts1 with
+      | None => None
+      | Some (cleared, sts2) =>
+          match sieve_loop fuel steps stop rest later sts2 with
+          | None => None
+          | Some r => Some ((sg, cleared) :: r)
+          end
+      end
+  end.
+
+(** the numbers of a segment whose bit is still set after the cross-off (bits above segmentHigh are ignored:
+    the real code masks them with unsetLarger / never reads them) *)
+Definition pair_mem (b m : N) (l : list (N * N)) : bool := existsb (fun c => (fst c =? b) && (snd c =? m)) l.
+Definition surviving (sg : kseg) (cleared : list (N * N)) : list N :=
+  filter (fun n => existsb (N.eqb (n mod 30)) cop30 && (n <=? k_high sg) &&
+                   negb (pair_mem (byteof (k_low sg) n) (maskof n) cleared))
+         (map (fun i => k_low sg + 7 + N.of_nat i) (seq 0 (N.to_nat (30 * k_size sg)))).
+
+(** the whole model kernel for [start, stop] under a configuration: the surviving numbers of all segments *)
+Definition kernel_run (fuelg fuel : nat) (l1 maxKB start stop : N) (sieving_primes : list N) : option (list N) :=
+  match EratGeom.segments fuelg l1 maxKB start stop with
+  | None => None
+  | Some l =>
+      match sieve_loop fuel eratSmallSteps stop (map (fun sg => {| k_low := EratGeom.s_low sg; k_size := EratGeom.s_bytes sg; k_high := EratGeom.s_high sg |}) l) sieving_primes [] with
+      | None => None
+      | Some result => Some (flat_map (fun r => surviving (fst r) (snd r)) result)
+      end
+  end.
